@@ -611,6 +611,19 @@ def fam_mi(w, acc):
             acc.fail("mutual_information/gauss-equals-reference", w, msg)
         if np.any(lib_all[gdef] < 0):
             acc.fail("mutual_information/gauss-bounds", w, f"min {lib_all[gdef].min()!r} < 0")
+        # the estimate is a function of the correlation coefficient: the same for the data in very small / large units
+        # (powers of two: the scaled series are the exact multiples) and for series of very different magnitude
+        if not is_affine(w["data"]):
+            for tag_, sc_ in (("2^-340", np.full(N, 2.0 ** -340)), ("2^320", np.full(N, 2.0 ** 320)),
+                              ("alternating 2^300 / 2^-300", np.array([2.0 ** (300 if k % 2 else -300) for k in range(N)]))):
+                try:
+                    sc_all = run(np.ascontiguousarray(d * sc_), "all")
+                except Exception as e:    # pylint: disable=broad-except
+                    acc.fail("mutual_information/gauss-unit-invariance", w, f"units {tag_}: {type(e).__name__}: {e}")
+                    continue
+                msg = gauss_close(sc_all, ref, refr)
+                if msg:
+                    acc.fail("mutual_information/gauss-unit-invariance", w, f"units {tag_}: {msg}")
     elif est == "knn":
         bnd = S.knn_bound(M, w["knn"])
         if not np.all(np.isfinite(lib_all)) or np.abs(lib_all).max() > bnd * (1 + 1e-5) + ATOL:
